@@ -202,7 +202,7 @@ def crash_and_resume(case, k, shadow, tape):
             for vid, got in zip(rr.requested, res2):
                 if shadow.random[vid]:
                     continue
-                d = G.compare(np.asarray(got), shadow.values[vid], exact=shadow.exact[vid])
+                d = G.compare(np.asarray(got), shadow.values[vid], exact=shadow.exact[vid], lowprec=shadow.lowprec[vid])
                 if d is not None:
                     vs.append(dict(cls="wrong_value_after_resume", msg=f"crash point {k}: value {vid}: {d}"))
                     break
